@@ -112,6 +112,8 @@ def ill_conditioned(G, ref_ids, k):
 def arrays(case):
     """The MSarr_list handed to the implementation: restriction of G to the setup's sensors times the factors."""
     G = np.array([[complex(a, b) for a, b in row] for row in case["G"]])
+    if case.get("scale10"):  # the same global table in other units: multiplied overall by 10^k
+        G = G * (10.0 ** int(case["scale10"]))
     out = []
     for s, c in zip(case["sensors"], case["factors"]):
         M = G[s, :] * np.array(c, dtype=float)[None, :]
@@ -146,6 +148,18 @@ def close(a, b, tol=TOL, floor=1.0):
     return bool(np.max(np.abs(a - b)) <= tol * max(floor, float(np.max(np.abs(b)))) + 1e-12)
 
 
+def close_rel(a, b, tol=TOL, scale=None):
+    """scale-free: |a-b| <= tol * max|b| (shapes have no natural unit: 1e-9 m is as good a shape as 1)."""
+    a, b = np.asarray(a), np.asarray(b)
+    if a.shape != b.shape:
+        return False
+    if a.size == 0:
+        return True
+    if not (np.all(np.isfinite(a)) and np.all(np.isfinite(b))):
+        return False
+    return bool(np.max(np.abs(a - b)) <= tol * float(np.max(np.abs(b if scale is None else scale))))
+
+
 def pop_stats(rows):
     """arithmetic mean over the setups and population std / mean, written out (rows: setups x modes)."""
     n, nm = len(rows), len(rows[0])
@@ -173,6 +187,22 @@ def coq_cmat(M):
 def merge_expr(MS, refs):
     return ('match merge_mode_shapes QcOps %s %s with MergeOk m => "ok:" ++ showCMat m | MergeValueErr => "ValueError" '
             '| MergeIndexErr => "IndexError" end' % (clist([coq_cmat(M) for M in MS]), clist([coq_nats(r) for r in refs])))
+
+
+def merge_exprs(MS, refs):
+    """[(expr, first_row, end_row)]: one expression, or several row blocks when the printed table would be long (Show.v
+    builds the string by non-tail-recursive appends: ~70 kB of output overflows coqc's stack with 53-bit mantissas)."""
+    full = merge_expr(MS, refs)
+    nums = max(1, full.count("(q "))
+    per_number = 20 if len(full) / nums < 22 else 4 * len(full) / nums
+    rows = len(refs[0]) + sum(len(M) - len(refs[0]) for M in MS)
+    nm = np.asarray(MS[0]).shape[1]
+    est = rows * nm * 2 * per_number
+    if est <= 15000 or rows <= 1:
+        return [(full, 0, rows)]
+    step = max(1, int(rows * 15000 / est))
+    return [(full.replace('"ok:" ++ showCMat m', '"ok:" ++ showCMat (firstn %d (skipn %d m))' % (min(step, rows - a), a)), a, min(a + step, rows))
+            for a in range(0, rows, step)]
 
 
 def parse_cmat(s):
@@ -241,15 +271,14 @@ def stub_classes():
     class StubAlgC(StubAlg):
         pass
 
-    return [StubAlg, StubAlgB, StubAlgC]
+    return [StubAlg, StubAlgB, StubAlgC], StubResult
 
 
-def gen_e2e_case(rng):
-    """nset SingleSetups x nalg algorithms; algorithm a has its own global table, mode count, factors, Fn, Xi; the
-    sensor layout (and so ref_ind) is shared."""
-    sensors, refs, nsens = gen_layout(rng)
+SCALES = [-12, -11, -10, -9, -8, -6, -4, -2, 2, 4, 6, 8, 9, 10, 11, 12]
+
+
+def gen_algs(rng, sensors, refs, nsens, nalg, scale=None):
     nset = len(sensors)
-    nalg = rng.randint(1, 3)
     algs = []
     for a in range(nalg):
         nm = rng.randint(1, 6)
@@ -263,29 +292,95 @@ def gen_e2e_case(rng):
         const = rng.random() < 0.1  # identical in every setup: zero dispersion
         sub["Fn"] = [[f if const else f + rng.randint(-16, 16) / 64.0 for f in base_f] for _ in range(nset)]
         sub["Xi"] = [[x if const else x + rng.randint(-8, 8) / 8192.0 for x in base_x] for _ in range(nset)]
+        if scale is not None:
+            sub["scale10"] = scale
+        elif rng.random() < 0.3:
+            sub["scale10"] = rng.choice(SCALES)
         algs.append(sub)
-    names = ["grp_%s" % "xyz"[a] for a in range(nalg)]
-    return dict(kind="e2e", sensors=sensors, refs=refs, algs=algs, names=names)
+    return algs
 
 
-def run_e2e(case, classes):
+def gen_e2e_case(rng, scale=None, **kw):
+    """nset SingleSetups x nalg algorithms; algorithm a has its own global table, mode count, factors, Fn, Xi (and
+    overall unit 10^k); the sensor layout (and so ref_ind) is shared."""
+    sensors, refs, nsens = gen_layout(rng, **kw)
+    nalg = rng.randint(1, 3)
+    return dict(kind="e2e", sensors=sensors, refs=refs, algs=gen_algs(rng, sensors, refs, nsens, nalg, scale),
+                names=["grp_%s" % "xyz"[a] for a in range(nalg)])
+
+
+def gen_hist_case(rng):
+    """A history on ONE MultiSetup_PoSER object: build, merge, change the setups' results (re-run with a new payload =
+    new result object / replace the result object / edit the result in place), merge again, merge twice without change."""
+    sensors, refs, nsens = gen_layout(rng, nset=rng.randint(2, 4), max_rov=3)
+    nalg = rng.randint(1, 2)
+    steps = [dict(op="set", how="build", algs=gen_algs(rng, sensors, refs, nsens, nalg))]
+    if rng.random() < 0.8:
+        steps.append(dict(op="merge"))
+    for _ in range(rng.randint(1, 3)):
+        steps.append(dict(op="set", how=rng.choice(["rerun", "rerun", "replace", "inplace"]), algs=gen_algs(rng, sensors, refs, nsens, nalg)))
+        steps.append(dict(op="merge"))
+        if rng.random() < 0.4:
+            steps.append(dict(op="merge"))
+    return dict(kind="e2e-hist", sensors=sensors, refs=refs, names=["grp_%s" % "xyz"[a] for a in range(nalg)], steps=steps)
+
+
+def payload(sub, i):
+    _, MS = arrays(sub)
+    return dict(Fn=np.array(sub["Fn"][i]), Xi=np.array(sub["Xi"][i]), Phi=MS[i])
+
+
+def build_poser(case, algs, classes):
     from pyoma2.setup import MultiSetup_PoSER, SingleSetup
 
-    nset = len(case["sensors"])
     setups = []
-    for i in range(nset):
+    for i in range(len(case["sensors"])):
         ss = SingleSetup(np.zeros((8, len(case["sensors"][i]))), fs=16.0)
         objs = []
-        for a, sub in enumerate(case["algs"]):
-            _, MS = arrays(sub)
+        for a, sub in enumerate(algs):
             alg = classes[a](name="alg%d_of_setup%d" % (a, i), p=a)
-            alg.payload = dict(Fn=np.array(sub["Fn"][i]), Xi=np.array(sub["Xi"][i]), Phi=MS[i])
+            alg.payload = payload(sub, i)
             objs.append(alg)
         ss.add_algorithms(*objs)
         ss.run_all()
         setups.append(ss)
-    msp = MultiSetup_PoSER(ref_ind=[list(r) for r in case["refs"]], single_setups=setups, names=list(case["names"]))
+    return MultiSetup_PoSER(ref_ind=[list(r) for r in case["refs"]], single_setups=setups, names=list(case["names"])), setups
+
+
+def change_results(setups, algs, how, StubResult):
+    """Give every algorithm of every setup new results.  rerun: run again (the setup attaches a NEW result object);
+    replace: attach a new result object directly; inplace: assign the fields of the existing result object."""
+    for i, ss in enumerate(setups):
+        for a, alg in enumerate(ss.algorithms.values()):
+            pl = payload(algs[a], i)
+            if how == "rerun":
+                alg.payload = pl
+            elif how == "replace":
+                alg._set_result(StubResult(**pl))
+            else:
+                alg.result.Fn, alg.result.Xi, alg.result.Phi = pl["Fn"], pl["Xi"], pl["Phi"]
+        if how == "rerun":
+            ss.run_all()
+
+
+def run_e2e(case, classes):
+    msp, _ = build_poser(case, case["algs"], classes)
     return msp.merge_results()
+
+
+def judge_result(r, sub):
+    """Property text on one merged result against the CURRENT results of the setups.  [(field, text)]"""
+    bad = []
+    want_phi, _ = expected_merged(sub)
+    if np.asarray(r.Phi).shape != want_phi.shape or not close_rel(r.Phi, want_phi):
+        bad.append(("Phi", "Phi is not the global shape of that algorithm in the first setup's scale"))
+    for what, rows, mean_got, disp_got in (("Fn", sub["Fn"], r.Fn, r.Fn_cov), ("Xi", sub["Xi"], r.Xi, r.Xi_cov)):
+        mean_want, disp_want = pop_stats(rows)
+        if not close(mean_got, mean_want):
+            bad.append((what, "%s is not the arithmetic mean over the setups" % what))
+        if not close(disp_got, disp_want, floor=0.0):
+            bad.append((what + "_cov", "%s_cov is not the population standard deviation over the setups divided by the mean" % what))
+    return bad
 
 
 # ----------------------------------------------------------------------------------------------------------------------
@@ -319,15 +414,30 @@ def gen_ssi_case(rng, alg):
         if np.min(np.sum(Phi[ref_ids, :] ** 2, axis=0) / np.sum(Phi ** 2, axis=0)) < 0.02:
             continue
         sel = sorted(rng.sample(range(n), rng.randint(1, n)))
-        return dict(kind="ssi", alg=alg, k=k, m=m, xi=[rng.uniform(0.008, 0.03) for _ in range(n)], sensors=sensors, refs=refs,
+        sel2 = sel
+        while sel2 == sel:
+            sel2 = sorted(rng.sample(range(n), rng.randint(1, n)))
+        return dict(kind="ssi", alg=alg, sel2=sel2, k=k, m=m, xi=[rng.uniform(0.008, 0.03) for _ in range(n)], sensors=sensors, refs=refs,
                     amps=[gen_factor(rng) for _ in range(nset)], sel=sel, N=rng.choice([500, 640, 800]), br=-(-2 * n // nref) + rng.randint(1, 5),  # (br+1)*nref >= 2n is what SSI_fast needs
                     modal=[[[rng.uniform(0.5, 1.5) * rng.choice([-1, 1]), rng.uniform(0, 6.28)] for _ in range(n)] for _ in range(nset)])
     raise RuntimeError("no admissible chain system drawn")
 
 
+def reidentify_ssi(case, setups, sel):
+    """run the setups' algorithms again (new result objects) and extract the modes sel"""
+    fn, _ = chain_modes(case["k"], case["m"])
+    per = []
+    for i, ss in enumerate(setups):
+        ss.run_all()
+        ss.mpe("ssi_%d" % i, sel_freq=[float(fn[r]) for r in sel], order=2 * len(fn))
+        res = ss.algorithms["ssi_%d" % i].result
+        per.append((np.asarray(res.Fn, float), np.asarray(res.Xi, float), np.asarray(res.Phi)))
+    return per
+
+
 def run_ssi(case):
     from pyoma2.algorithms import SSIcov, SSIdat
-    from pyoma2.setup import MultiSetup_PoSER, SingleSetup
+    from pyoma2.setup import SingleSetup
 
     fn, Phi = chain_modes(case["k"], case["m"])
     n = len(fn)
@@ -351,11 +461,10 @@ def run_ssi(case):
     return fn, Phi, per, setups
 
 
-def merge_ssi(case, setups):
+def poser_ssi(case, setups):
     from pyoma2.setup import MultiSetup_PoSER
 
-    msp = MultiSetup_PoSER(ref_ind=[list(r) for r in case["refs"]], single_setups=setups, names=["ssi"])
-    return msp.merge_results()["ssi"]
+    return MultiSetup_PoSER(ref_ind=[list(r) for r in case["refs"]], single_setups=setups, names=["ssi"])
 
 
 # ----------------------------------------------------------------------------------------------------------------------
@@ -385,7 +494,7 @@ def judge_merge(case):
         return got, ("C02:merge_mode_shapes:shape", "gen.merge_mode_shapes: result has shape %s, property says (%d rows = references + all "
                      "roving, %d modes)" % (got.shape, want.shape[0], want.shape[1])), iso, illc
     keep = [k for k in range(nm) if k not in iso and k not in illc]
-    if keep and not close(got[:, keep], want[:, keep]):
+    if keep and not close_rel(got[:, keep], want[:, keep]):
         g, w = got[:, keep], want[:, keep]
         if not np.all(np.isfinite(g)):
             detail = "merged contains NaN/inf"
@@ -394,7 +503,7 @@ def judge_merge(case):
                 r = g / w
             r = r[np.isfinite(r)]
             detail = "merged/global takes the values %s, largest deviation %.3g of the scale" % (
-                [round(float(x), 6) for x in np.unique(np.round(r.real, 6))[:8]], float(np.max(np.abs(g - w)) / max(1.0, np.max(np.abs(w)))))
+                [round(float(x), 6) for x in np.unique(np.round(r.real, 6))[:8]], float(np.max(np.abs(g - w)) / np.max(np.abs(w))))
         return got, ("C02:merge_mode_shapes:global", GLOBAL_TXT + "; " + detail), iso, illc
     return got, None, iso, illc
 
@@ -474,8 +583,13 @@ def run(ctx):
         "the identified per-setup shapes are re-scaled restrictions of the global shape to 1e-7 (the property's hypothesis)",
     ]
     exprs, meta = [], []
-    classes = stub_classes()
+    classes, StubResult = stub_classes()
     ssi_model = [0]
+
+    def add_merge(kind, case, got, MS, refs):
+        for e, a, b in merge_exprs(MS, refs):
+            exprs.append(e)
+            meta.append((kind, case, (got, a, b)))
 
     # ------------------------------------------------------------------------------------------------ merge_mode_shapes
     def do_merge(case):
@@ -506,8 +620,7 @@ def run(ctx):
         if got is None:
             return
         _, MS = arrays(case)
-        exprs.append(merge_expr(MS, case["refs"]))
-        meta.append(("merge", case, got))
+        add_merge("merge", case, got, MS, case["refs"])
 
     # ------------------------------------------------------------------------------------------------ flatten_sns_names
     def do_flatten(case):
@@ -543,8 +656,18 @@ def run(ctx):
         return dict(kind="flatten", names=[["%s%d" % (tag, sid) for sid in s] for s in sensors], refs=refs, sensors=sensors)
 
     # ------------------------------------------------------------------------------------------------ merge_results, stub algorithms
+    def model_result(r, sub, tag, with_phi):
+        for what, rows, mean_got, disp_got in (("Fn", sub["Fn"], r.Fn, r.Fn_cov), ("Xi", sub["Xi"], r.Xi, r.Xi_cov)):
+            exprs.append(stats_expr(rows))
+            meta.append(("stats", dict(tag, what=what), (np.asarray(mean_got, float), np.asarray(disp_got, float))))
+        if with_phi:
+            _, MS = arrays(sub)
+            add_merge("e2e-phi", tag, np.asarray(r.Phi), MS, sub["refs"])
+
     def do_e2e(case):
         ctx.hist("e2e_algs", len(case["algs"]))
+        for sub in case["algs"]:
+            ctx.hist("e2e_scale10", sub.get("scale10", 0))
         ctx.count(case, nontrivial=True)
         try:
             res = run_e2e(case, classes)
@@ -559,43 +682,57 @@ def run(ctx):
         for a, sub in enumerate(case["algs"]):
             r = res[case["names"][a]]
             tag = dict(case, alg=a)
-            want_phi, _ = expected_merged(sub)
-            if np.asarray(r.Phi).shape != want_phi.shape or not close(r.Phi, want_phi):
-                ctx.fail("oracle", "merge_results()[name].Phi is not the global shape of that algorithm in the first setup's scale", tag,
-                         key="C02:merge_results:Phi")
-            for what, rows, mean_got, disp_got in (("Fn", sub["Fn"], r.Fn, r.Fn_cov), ("Xi", sub["Xi"], r.Xi, r.Xi_cov)):
-                mean_want, disp_want = pop_stats(rows)
-                if not close(mean_got, mean_want):
-                    ctx.fail("oracle", "merge_results()[name].%s is not the arithmetic mean over the setups" % what, tag,
-                             key="C02:merge_results:%s" % what)
-                if not close(disp_got, disp_want, floor=0.0):
-                    ctx.fail("oracle", "merge_results()[name].%s_cov is not the population standard deviation over the setups divided by the mean"
-                             % what, tag, key="C02:merge_results:%s_cov" % what)
-                exprs.append(stats_expr(rows))
-                meta.append(("stats", dict(tag, what=what), (np.asarray(mean_got, float), np.asarray(disp_got, float))))
-            if a == 0 or not ctx.quick():  # model evaluation of Phi: first algorithm only in the quick tier (cost)
-                _, MS = arrays(sub)
-                exprs.append(merge_expr(MS, sub["refs"]))
-                meta.append(("e2e-phi", tag, np.asarray(r.Phi)))
+            for field, text in judge_result(r, sub):
+                ctx.fail("oracle", "merge_results()[name]." + text, tag, key="C02:merge_results:%s" % field)
+            model_result(r, sub, tag, a == 0 or not ctx.quick())  # model evaluation of Phi: first algorithm only in the quick tier (cost)
+
+    # ------------------------------------------------------------------------------------------------ histories on one PoSER object
+    def do_hist(case):
+        ctx.count(case, nontrivial=sum(1 for st in case["steps"] if st["op"] == "merge") >= 1 and len(case["steps"]) > 2)
+        ctx.hist("hist_steps", " ".join(st["op"] if st["op"] == "merge" else st["how"] for st in case["steps"]))
+        msp = setups = current = None
+        nmerge = 0
+        for n, st in enumerate(case["steps"]):
+            try:
+                if st["op"] == "set":
+                    current = [dict(sub, sensors=case["sensors"], refs=case["refs"]) for sub in st["algs"]]
+                    if msp is None:
+                        msp, setups = build_poser(case, current, classes)
+                    else:
+                        change_results(setups, current, st["how"], StubResult)
+                    continue
+                res = msp.merge_results()
+            except Exception as e:
+                ctx.fail("oracle", "history on one MultiSetup_PoSER object: step %d (%s) raises %s" % (n, st["op"], type(e).__name__), dict(case, at_step=n),
+                         key="C02:merge_results:history-raises")
+                return
+            nmerge += 1
+            for a, sub in enumerate(current):
+                r = res.get(case["names"][a])
+                tag = dict(case, at_step=n, alg=a)
+                if r is None:
+                    ctx.fail("oracle", "merge_results: no result under the given name %s" % case["names"][a], tag, key="C02:merge_results:names")
+                    continue
+                bad = judge_result(r, sub)
+                if bad:
+                    sets = [m for m in range(n) if case["steps"][m]["op"] == "set"]
+                    earlier = []
+                    for m in sets[:-1]:
+                        try:
+                            if not judge_result(r, dict(case["steps"][m]["algs"][a], sensors=case["sensors"], refs=case["refs"])):
+                                earlier.append(m)
+                        except Exception:
+                            pass
+                    extra = (" - it is the result of the setups' EARLIER results (set at step %d), not of their current ones" % earlier[-1]) if earlier else ""
+                    ctx.fail("oracle", "merge_results() number %d on the same MultiSetup_PoSER object (step %d) does not reflect the setups' current "
+                             "results: %s%s" % (nmerge, n, "; ".join(t for _, t in bad), extra), tag, key="C02:merge_results:history")
+                if n == max(k for k, s3 in enumerate(case["steps"]) if s3["op"] == "merge"):
+                    model_result(r, sub, tag, a == 0)
 
     # ------------------------------------------------------------------------------------------------ merge_results, real SSI runs
-    def do_ssi(case):
-        ctx.count(case, nontrivial=True)
-        try:
-            fn, Phi, per, setups = run_ssi(case)
-        except Exception as e:  # the identification stage (not part of C02) failed: the hypothesis cannot be set up
-            ctx.not_judged += 1
-            ctx.hist("ssi_hypothesis", "identification raised " + type(e).__name__)
-            return
-        try:
-            r = merge_ssi(case, setups)
-        except Exception as e:
-            ctx.fail("oracle", "MultiSetup_PoSER.merge_results() raises %s after SSI runs on noise-free records of one global system" % type(e).__name__,
-                     case, key="C02:merge_results:ssi-raises")
-            return
-        sel = case["sel"]
+    def judge_ssi(case, fn, Phi, per, r, sel, label):
+        """False when the identification did not meet the hypothesis (not judged)."""
         G = Phi[:, sel]
-        # hypothesis check: every setup's identified shape is a real multiple of the global shape on its sensors
         ok, c0 = True, None
         for i, (s, (f_i, x_i, P_i)) in enumerate(zip(case["sensors"], per)):
             if P_i.shape != (len(s), len(sel)) or not np.all(np.isfinite(P_i)):
@@ -609,26 +746,79 @@ def run(ctx):
         if not ok:
             ctx.not_judged += 1  # identification itself is not exact here: the property's hypothesis is not met
             ctx.hist("ssi_hypothesis", "not met")
-            return
+            return False
         ctx.hist("ssi_hypothesis", "met")
         order = expected_order(case["sensors"], case["refs"])
+        suffix = "" if label == "first" else "-history"
         if np.asarray(r.Phi).shape != (len(order), len(sel)) or not close(r.Phi, G[order, :] * c0[None, :], tol=1e-6):
-            ctx.fail("oracle", "merge_results().Phi from SSI runs on noise-free records of one system at different amplitudes is not the global "
-                     "shape in the first setup's scale", case, key="C02:merge_results:ssi-Phi")
+            ctx.fail("oracle", "merge_results().Phi (%s merge) from SSI runs on noise-free records of one system at different amplitudes is not the "
+                     "global shape of the CURRENTLY extracted modes in the first setup's scale" % label, case, key="C02:merge_results:ssi-Phi" + suffix)
         for what, idx, mean_got, disp_got in (("Fn", 0, r.Fn, r.Fn_cov), ("Xi", 1, r.Xi, r.Xi_cov)):
             rows = [p[idx] for p in per]
             mean_want, disp_want = pop_stats(rows)
-            if not close(mean_got, mean_want):
-                ctx.fail("oracle", "merge_results().%s (SSI runs) is not the arithmetic mean over the setups" % what, case, key="C02:merge_results:%s" % what)
-            if not close(disp_got, disp_want, floor=0.0):
-                ctx.fail("oracle", "merge_results().%s_cov (SSI runs) is not the population standard deviation over the setups divided by the mean" % what,
-                         case, key="C02:merge_results:%s_cov" % what)
-            exprs.append(stats_expr(rows))
-            meta.append(("stats", dict(case, what=what), (np.asarray(mean_got, float), np.asarray(disp_got, float))))
+            if np.asarray(mean_got).shape != mean_want.shape or not close(mean_got, mean_want):
+                ctx.fail("oracle", "merge_results().%s (SSI runs, %s merge) is not the arithmetic mean over the setups' current results" % (what, label), case,
+                         key="C02:merge_results:%s%s" % (what, suffix))
+            elif not close(disp_got, disp_want, floor=0.0):
+                ctx.fail("oracle", "merge_results().%s_cov (SSI runs, %s merge) is not the population standard deviation over the setups divided by the mean"
+                         % (what, label), case, key="C02:merge_results:%s_cov%s" % (what, suffix))
+            if label == "first":
+                exprs.append(stats_expr(rows))
+                meta.append(("stats", dict(case, what=what), (np.asarray(mean_got, float), np.asarray(disp_got, float))))
+        return True
+
+    def do_ssi(case):
+        ctx.count(case, nontrivial=True)
+        try:
+            fn, Phi, per, setups = run_ssi(case)
+        except Exception as e:  # the identification stage (not part of C02) failed: the hypothesis cannot be set up
+            ctx.not_judged += 1
+            ctx.hist("ssi_hypothesis", "identification raised " + type(e).__name__)
+            return
+        try:
+            msp = poser_ssi(case, setups)
+            r = msp.merge_results()["ssi"]
+        except Exception as e:
+            ctx.fail("oracle", "MultiSetup_PoSER.merge_results() raises %s after SSI runs on noise-free records of one global system" % type(e).__name__,
+                     case, key="C02:merge_results:ssi-raises")
+            return
+        if not judge_ssi(case, fn, Phi, per, r, case["sel"], "first"):
+            return
         ssi_model[0] += 1
         if ssi_model[0] <= ctx.n(2, 12):  # 53-bit mantissas make big rationals: the model is evaluated on the first few only
-            exprs.append(merge_expr([p[2] for p in per], case["refs"]))
-            meta.append(("e2e-phi", case, np.asarray(r.Phi)))
+            add_merge("e2e-phi", case, np.asarray(r.Phi), [p[2] for p in per], case["refs"])
+        # same PoSER object: the setups are run again (new result objects) and other modes are extracted; merge again
+        if case.get("sel2"):
+            try:
+                per2 = reidentify_ssi(case, setups, case["sel2"])
+            except Exception as e:
+                ctx.not_judged += 1
+                ctx.hist("ssi_hypothesis", "re-identification raised " + type(e).__name__)
+                return
+            try:
+                r2 = msp.merge_results()["ssi"]
+            except Exception as e:
+                ctx.fail("oracle", "second merge_results() on the same MultiSetup_PoSER object raises %s after the setups were run again" % type(e).__name__,
+                         case, key="C02:merge_results:ssi-raises-history")
+                return
+            judge_ssi(case, fn, Phi, per2, r2, case["sel2"], "second")
+
+    # ------------------------------------------------------------------------------------------------ one global table in other units
+    def do_scale(base, ks):
+        """the same case with the global table multiplied overall by 10^k: property text on each instance (do_merge), and
+        merged(10^k G) = 10^k merged(G)"""
+        got0, bad0, iso, illc = judge_merge(base)
+        do_merge(base)
+        for k in ks:
+            c = dict(base, scale10=k)
+            ctx.hist("scale10", k)
+            do_merge(c)
+            if got0 is None or bad0 or iso or illc:
+                continue
+            got, bad, _, _ = judge_merge(c)
+            if got is not None and not bad and not close_rel(got, got0 * 10.0 ** k):
+                ctx.fail("oracle", "gen.merge_mode_shapes is not homogeneous: merged(10^%d G) differs from 10^%d merged(G)" % (k, k), c,
+                         key="C02:merge_mode_shapes:scale")
 
     def dispatch(c):
         c = {k: v for k, v in c.items() if k not in ("corpus", "comment", "got", "want", "alg_index", "what")}
@@ -640,6 +830,10 @@ def run(ctx):
         elif kind == "e2e":
             c.pop("alg", None)
             do_e2e(c)
+        elif kind == "e2e-hist":
+            c.pop("alg", None)
+            c.pop("at_step", None)
+            do_hist(c)
         elif kind == "ssi":
             do_ssi(c)
         else:
@@ -656,8 +850,9 @@ def run(ctx):
                     ctx.fail("correspondence", "model merge_mode_shapes returns %s where %s returns a table" % (s, where), case,
                              key="C02:%s:corr-error" % kind)
                     continue
+                got, a, b = got
                 M = parse_cmat(s[3:])
-                if M.shape != got.shape or not close(got, M):
+                if got.ndim != 2 or got.shape[0] < b or M.shape != got[a:b].shape or not close_rel(got[a:b], M, scale=got):
                     ctx.fail("correspondence", "%s differs from model merge_mode_shapes" % where, case, key="C02:%s:corr" % kind)
             elif kind == "malformed":
                 if (s.startswith("ok:")) != (got == "no exception"):
@@ -722,6 +917,15 @@ def run(ctx):
     for _ in range(ctx.n(150, 1500)):
         ctx.hist("stream", "random")
         do_merge(gen_merge_case(rng))
+
+    # the same global table in other units (10^k, k over [-12, 12]); per-setup factors stay in [0.05, 20]
+    for j in range(ctx.n(6, 40)):
+        base = gen_merge_case(rng, nm=rng.randint(1, 3), nset=rng.randint(2, 3), max_rov=3)
+        ks = [rng.choice([-12, -11, -10, -9]), rng.choice([-8, -6, -4, -2, 2, 4, 6, 8]), rng.choice([9, 10, 11, 12])]
+        if not ctx.quick():
+            ks += [rng.randint(-12, 12) or 1, rng.randint(-12, 12) or -1]
+        ctx.hist("stream", "scale")
+        do_scale(base, ks)
 
     # special global shapes inside the hypothesis: purely imaginary, real part (or imaginary part) zero on the references only,
     # a zero entry at the first / at all but one reference sensor
@@ -798,6 +1002,12 @@ def run(ctx):
     for _ in range(ctx.n(40, 300)):
         ctx.hist("stream", "e2e")
         do_e2e(gen_e2e_case(rng))
+    for j in range(ctx.n(6, 40)):  # end to end in other units
+        ctx.hist("stream", "e2e-scale")
+        do_e2e(gen_e2e_case(rng, scale=[-12, 12, -9, 9, -10, -11][j % 6] if j < 12 else rng.choice(SCALES), nset=rng.randint(2, 3), max_rov=3))
+    for _ in range(ctx.n(16, 150)):  # histories on one PoSER object
+        ctx.hist("stream", "e2e-history")
+        do_hist(gen_hist_case(rng))
     for j in range(ctx.n(6, 60)):
         case = gen_ssi_case(rng, "SSIcov" if j % 2 == 0 else "SSIdat")
         ctx.hist("stream", "ssi-" + case["alg"])
